@@ -984,6 +984,33 @@ func (e *Exec) evalSpecCall(n *ast.CallExpr, env *specEnv) (SV, error) {
 				return SV{}, fmt.Errorf("dom of non-map")
 			}
 			return pureSV(And(Not(Eq(a[0].L[0], IntLit(0))), Select(e.mapDom(env.st, mt, a[0].L[0]), a[1].L[0]))), nil
+		case "otherMapsKept": // otherMapsKept(m): every map of m's type other than m has the content it had in the old state
+			a, err := args()
+			if err != nil {
+				return SV{}, err
+			}
+			mt, ok := a[0].T.Underlying().(*types.Map)
+			if !ok {
+				return SV{}, fmt.Errorf("otherMapsKept of non-map")
+			}
+			cls := "M:" + typeKey(mt.Key()) + ":" + typeKey(mt.Elem())
+			ks := flatten(mt.Key())[0].Sort
+			var cs []Term
+			names := []string{cls + "#dom"}
+			sorts := []Sort{ArrSort(SInt, ArrSort(ks, SBool))}
+			for _, l := range flatten(mt.Elem()) {
+				names = append(names, cls+"#val"+l.Path)
+				sorts = append(sorts, ArrSort(SInt, ArrSort(ks, l.Sort)))
+				e.ctx.refLeaf[cls+"#val"+l.Path] = isRefLeaf(l)
+			}
+			e.ctx.n++
+			q := sym(fmt.Sprintf("mm!q%d", e.ctx.n))
+			for i, nm := range names {
+				now := e.heapGet(env.st, nm, sorts[i])
+				was := e.heapGet(env.old, nm, sorts[i])
+				cs = append(cs, Term{fmt.Sprintf("(= (select %s %s) (select %s %s))", now.S, q, was.S, q), SBool})
+			}
+			return pureSV(Term{fmt.Sprintf("(forall ((%s Int)) (=> (not (= %s %s)) %s))", q, q, a[0].L[0].S, And(cs...).S), SBool}), nil
 		case "allocated": // reference existed in the current state
 			a, err := args()
 			if err != nil {
